@@ -134,8 +134,10 @@ def check(rec):
                 stack[actor].pop()
             continue
         meta = None
-        if kind == "exc":
+        if kind == "exc" or kind == "caught":
             meta = ev[5]
+        elif kind in ("await_task.exc", "flow.exc"):
+            meta = ev[6]        # what an awaiting side / a flow helper was handed
         elif kind.endswith("!") or kind.endswith(".abort"):
             meta = ev[-1] if isinstance(ev[-1], tuple) else None
         if meta is not None:
